@@ -31,6 +31,7 @@ type layout struct {
 	NoSNI     bool   `json:"inner_without_server_name,omitempty"`
 	NoALPN    bool   `json:"inner_without_alpn,omitempty"`
 	OuterALPN bool   `json:"outer_has_alpn,omitempty"`
+	InnerPad  int    `json:"inner_padding_extension_len,omitempty"` // an RFC 7685 padding EXTENSION (type 21) inside the inner hello: an ordinary extension
 }
 
 const innerName = "inner.secret.example"
@@ -75,6 +76,9 @@ func buildLayout(key echx.KeyPair, l layout) echx.Spec {
 	}
 	if !l.NoALPN {
 		inner = append(inner, tlsref.ALPN("h2", "http/1.1"))
+	}
+	if l.InnerPad > 0 {
+		inner = append(inner, tlsref.Ext{Type: tlsref.ExtPadding, Data: make([]byte, l.InnerPad-1)})
 	}
 	if l.OuterALPN && l.OuterKind != 2 {
 		outer = append(outer, tlsref.ALPN("outer-proto"))
@@ -127,7 +131,7 @@ func SelfValidate(key echx.KeyPair) error {
 }
 
 func Run(r *ev.Run) {
-	r.Rule("E1 exhaustive: 3 AEADs x every subset of 6 shared extensions chosen for compression x every position of the ech_outer_extensions marker x 3 positions of the inner ECH extension x 3 outer layouts (ECH first/middle/last, unrelated extensions interleaved) x padding{0,1,31,32} x session-id length{0,1,32} x key_share 36B/1220B x uncompressed shared extensions kept/omitted x session id inside the encoded inner {empty, 7 B, 32 B differing from the outer one}, plus a size family up to 30 kB (outer hello up to 61 kB) (hellos spanning several records, in and out) small hellos fragmented by the client at 11 cut patterns (incl. 3-4 records with a last fragment of 1-12 bytes), reconstructed hellos of exactly k*2^14 and k*2^14 +-1 bytes, and inner hellos without server_name and/or ALPN under outer hellos that carry them; each sealed by the reference sender and fed to the real NewConn; forwarded record compared byte for byte with the reference reconstruction. distinct = distinct outer-hello byte strings")
+	r.Rule("E1 exhaustive: 3 AEADs x every subset of 6 shared extensions chosen for compression x every position of the ech_outer_extensions marker x 3 positions of the inner ECH extension x 3 outer layouts (ECH first/middle/last, unrelated extensions interleaved) x padding{0,1,31,32} x session-id length{0,1,32} x key_share 36B/1220B x uncompressed shared extensions kept/omitted x session id inside the encoded inner {empty, 7 B, 32 B differing from the outer one}, plus a size family up to 30 kB (outer hello up to 61 kB) (hellos spanning several records, in and out) small hellos fragmented by the client at 11 cut patterns (incl. 3-4 records with a last fragment of 1-12 bytes), reconstructed hellos of exactly k*2^14 and k*2^14 +-1 bytes, inner hellos without server_name and/or ALPN under outer hellos that carry them, and inner hellos carrying a padding extension (type 21) of 0/1/199 bytes; each sealed by the reference sender and fed to the real NewConn; forwarded record compared byte for byte with the reference reconstruction. distinct = distinct outer-hello byte strings")
 	r.Assume("tlsref/hpkeref reference sender is correct (validated on every run against crypto/tls and RFC 9180 vectors)", "outer hellos do not repeat an extension type")
 	key := echx.NewKey("c03", 7, echx.AllSuites, "public.example")
 	if err := SelfValidate(key); err != nil {
@@ -219,6 +223,21 @@ func Run(r *ev.Run) {
 					for _, oa := range []bool{false, true} {
 						l := layout{AEAD: aead, Refs: refs, MarkerAt: 0, ECHInAt: 99, OuterKind: ok, SID: 32, NoSNI: v[0], NoALPN: v[1], OuterALPN: oa}
 						evalBuilt(r, keys, l, buildLayout(key, l).Build(), ":inner-without-sni-or-alpn")
+						extra++
+					}
+				}
+			}
+		}
+	}
+	// an RFC 7685 padding extension (type 21) carried INSIDE the inner hello is an ordinary extension: only the trailing zero
+	// bytes of EncodedClientHelloInner are "padding removed"
+	for _, aead := range []uint16{1, 3} {
+		for _, refs := range [][]int{nil, {0, 2, 4}} {
+			for ok := 0; ok < 3; ok++ {
+				for _, pl := range []int{1, 2, 200} {
+					for _, echAt := range []int{0, 99} {
+						l := layout{AEAD: aead, Refs: refs, MarkerAt: 1, ECHInAt: echAt, OuterKind: ok, SID: 32, Padding: 7, InnerPad: pl}
+						evalBuilt(r, keys, l, buildLayout(key, l).Build(), ":inner-padding-extension")
 						extra++
 					}
 				}
